@@ -509,7 +509,7 @@ def main(argv):
     assumptions = {}
     bins = {}
     try:
-        profiles = ["release"] + (["chk"] if spec.get("chk") else [])
+        profiles = ["release", "chk"]   # every property is exercised in both build profiles
         bins = build_harness(profiles)
         dump_and_gen(bins["release"])
     except Broken as b:
@@ -614,8 +614,7 @@ def main(argv):
             "print_assumptions": assumptions,
             "evaluations": total_cases,
             "distinct_nontrivial": distinct,
-            "rule": "correspondence check: identical case files executed by the implementation (ckc-probe run, release"
-                    + (" and overflow-checked" if spec.get("chk") else "") + " build) and by the extracted Coq model (ocaml/modelrun); outputs compared "
+            "rule": "correspondence check: identical case files executed by the implementation (ckc-probe run, release and overflow-checked build) and by the extracted Coq model (ocaml/modelrun); outputs compared "
                     "line by line; a case is non-trivial/distinct when its input line is distinct. Per family: "
                     + " | ".join("%s: %s" % (s["family"], s["rule"]) for s in stats),
             "samples": samples or [s["statement"] for s in stmts[:2]],
